@@ -53,10 +53,12 @@ def check(ctx):
     r1.check(len(pn) == 1 and len(pc) == 1 and pn[0].gtexts() == pc[0].gtexts(), 'a struct promoted by its typedef takes the typedef name AND c:type', tm.rel, tc.lineno,
              'when a struct body precedes its typedef the compound is promoted with name=%s and ctype=%s: the record is written with the struct tag (_FooBar) as c:type and '
              'namespace.ctypes is keyed by the tag' % ([e.value for e in pn], [e.value for e in pc]), detail=[repr(e) for e in promo])
-    tn = py.func(TR, 'Transformer._create_tag_ns_compound')
-    cc = [c for c in P.calls_in(tn) if P.call_name(c) == 'compound_class']
-    r1.check(len(cc) == 1 and P.src(cc[0].args[0]) == 'None' and P.src(cc[0].args[1]) == 'symbol.ident', 'tag-namespace compound keeps the tag as provisional c:type and no name', tm.rel,
-             tn.lineno, 'tag compound construction changed')
+    TN = gsa.summarise(ctx, TR, 'Transformer._create_tag_ns_compound', inline_only=())
+    tn = TN.func
+    ccp, symp = TN.P(1), TN.P(2)
+    cc = [e for e in TN.effects if e.kind == 'call' and e.target == ccp]
+    r1.check(len(cc) >= 1 and all(len(e.args) >= 2 and e.args[0] == 'None' and e.args[1] == '%s.ident' % symp for e in cc), 'tag-namespace compound keeps the tag as provisional c:type and no name', tm.rel,
+             tn.lineno, 'tag compound construction changed: %s' % [e.value for e in cc])
 
     # ------------------------------------------------------------------ R2 underscore and foreign exclusion
     r2 = ctx.rule('R2', 'underscore-prefixed and foreign symbols are left out', floor=7)
